@@ -219,10 +219,16 @@ func DupStress(r *gen.Rng, n int) []VCase {
 // variable type (without default, with a null default, with a value default) used at every
 // argument type (with and without a default of the argument), directly and inside a list or an
 // input object.
-func TypeMatrix() []VCase {
+func TypeMatrix() []VCase { return typeMatrix(false) }
+
+// TypeMatrixLiterals: the literal half only, for a few position types (used where every case is
+// validated many times over).
+func TypeMatrixLiterals() []VCase { return typeMatrix(true) }
+
+func typeMatrix(literalsOnly bool) []VCase {
 	types := []string{"Int", "Int!", "[Int]", "[Int!]", "[Int]!", "[Int!]!", "[[Int]]", "[[Int!]!]!", "[[Int]!]", "String", "String!", "Boolean!",
-		"Float!", "ID!", "E", "E!", "[E!]", "Custom", "Custom!", "[Custom!]!", "In", "In!", "[In!]"}
-	okLit := map[string]string{"Int": "1", "String": "\"s\"", "Boolean": "true", "Float": "1.5", "ID": "\"i\"", "E": "A", "Custom": "1", "In": "{r: 1, c: 1}"}
+		"Float!", "ID!", "E", "E!", "[E!]", "Custom", "Custom!", "[Custom!]!", "In", "In!", "[In!]", "One", "One!", "[One!]"}
+	okLit := map[string]string{"Int": "1", "String": "\"s\"", "Boolean": "true", "Float": "1.5", "ID": "\"i\"", "E": "A", "Custom": "1", "In": "{r: 1, c: 1}", "One": "{a: 1}"}
 	lit := func(t string) string {
 		base := strings.Trim(t, "[]!")
 		depth := strings.Count(t, "[")
@@ -230,9 +236,16 @@ func TypeMatrix() []VCase {
 	}
 	lits := []string{"null", "1", "-0", "2147483648", "1.5", "\"s\"", "true", "A", "C", "[]", "[null]", "[1]", "[1, null]", "[[1]]", "[[null]]", "[[1], null]",
 		"[\"x\"]", "[[\"x\"]]", "{}", "{r: 1, c: 1}", "{r: null, c: 1}", "{r: 1, c: null}", "{r: 1, c: 1, d: null}", "{r: 1, c: 1, o: null, l: [1, null]}",
-		"{r: 1, c: 1, n: {r: 2}}", "{r: 1, c: 1, m: [{r: 1, c: 2}, null]}", "{r: 1, c: 1, zz: 1}", "[{r: 1, c: 1}]", "[A, null]", "[null, [1]]"}
+		"{r: 1, c: 1, n: {r: 2}}", "{r: 1, c: 1, m: [{r: 1, c: 2}, null]}", "{r: 1, c: 1, zz: 1}", "[{r: 1, c: 1}]", "[A, null]", "[null, [1]]",
+		// numbers no machine type holds, alone and nested
+		"99999999999999999999", "-99999999999999999999", "1e999", "-1e999", "[99999999999999999999]", "[1e999, 1]", "{r: 99999999999999999999, c: 1e999}",
+		"{r: 1, c: {deep: [1e999]}}", "{a: 99999999999999999999}",
+		// exactly-one-of input objects
+		"{a: 1}", "{a: null}", "{b: \"x\"}", "{a: 1, b: \"x\"}", "{a: 1, b: null}", "{nope: null}", "{nope: 1}", "{a: 1, nope: null}", "{a: $v}", "[{a: 1}, {nope: null}]",
+		// object literals where no fields are declared (custom scalars): keys, duplicates and variables inside
+		"{k: 1, k: 2}", "{k: {j: 1, j: 2}}", "{k: $v}", "{k: [$v, {j: $w}]}"}
 	var sb strings.Builder
-	sb.WriteString("scalar Custom\nenum E { A B }\ninput In { r: Int! o: Int l: [Int!] c: Custom! d: Int! = 1 n: In m: [In!] }\ntype Query {\n")
+	sb.WriteString("scalar Custom\nenum E { A B }\ninput In { r: Int! o: Int l: [Int!] c: Custom! d: Int! = 1 n: In m: [In!] }\ninput One @oneOf { a: Int b: String }\ntype Query {\n")
 	for k, t := range types {
 		sb.WriteString("  f" + itoa(k) + "(a: " + t + "): Int\n  g" + itoa(k) + "(a: " + t + " = " + lit(t) + "): Int\n")
 	}
@@ -240,10 +253,19 @@ func TypeMatrix() []VCase {
 	schema := []string{sb.String()}
 	var out []VCase
 	add := func(q string) { out = append(out, VCase{Srcs: schema, Query: q}) }
-	for k := range types {
+	for k, t := range types {
+		if literalsOnly && !(t == "Int!" || t == "Float!" || t == "ID!" || t == "Custom!" || t == "In!" || t == "[Int!]!" || t == "One!" || t == "E!") {
+			continue
+		}
 		for _, l := range lits {
 			add("{ f" + itoa(k) + "(a: " + l + ") }")
+			if strings.Contains(l, "$") {
+				add("query Q($v: Int, $w: Int, $unused: Int) { f" + itoa(k) + "(a: " + l + ") }")
+			}
 		}
+	}
+	if literalsOnly {
+		return out
 	}
 	for _, l := range lits {
 		add("{ f0 @dv(a: " + l + ", c: 1) }")
